@@ -3,11 +3,12 @@
    TODO (unproved), compared on every generated case instead (see harness/c04/NOTES.md):
      generator_resumable    : wf -> obs (commit acts) = spec_exec acts   (re-entrant)
      a run-level (rather than generator-step-level) statement of declaration order within a phase and of
-     deferred_when_reached for re-entrant runs *)
+     deferred_when_reached for re-entrant runs (the run-level form of the late-addition clause IS proved:
+     C04_late_addition_refused / C04_late_refusal_names_last_phase) *)
 From Coq Require Import List NArith ZArith Bool Sorted.
 Import ListNotations.
-Require Import Verif.Lib.Wire Verif.Lib.C04Sort Verif.Gen.Facts_C04 Verif.Model.C04 Verif.Gen.Exec_C04.
-Require Import Verif.Proofs.C04 Verif.Proofs.C04_flat Verif.Proofs.C04_decide Verif.Proofs.C04_safe Verif.Proofs.C04_groups Verif.Proofs.C04_spec Verif.Proofs.C04_mono Verif.Proofs.C04_one Verif.Proofs.C04_defer Verif.Proofs.C04_step Verif.Proofs.C04_all Verif.Proofs.C04_order Verif.Proofs.C04_gen.
+Require Import Verif.Lib.Wire Verif.Lib.C04Sort Verif.Gen.Facts_C04 Verif.Model.C04 Verif.Model.C04_entry Verif.Gen.Exec_C04.
+Require Import Verif.Proofs.C04 Verif.Proofs.C04_flat Verif.Proofs.C04_decide Verif.Proofs.C04_safe Verif.Proofs.C04_groups Verif.Proofs.C04_spec Verif.Proofs.C04_mono Verif.Proofs.C04_one Verif.Proofs.C04_defer Verif.Proofs.C04_step Verif.Proofs.C04_all Verif.Proofs.C04_order Verif.Proofs.C04_gen Verif.Proofs.C04_late Verif.Proofs.C04_entry.
 
 (* ---- the control flow of ActionState.execute_actions and of ActionConfiguratorMixin.action is REGENERATED from the
    source on every run (harness/c04/translate.py -> Gen/Exec_C04.v); it equals the hand-written model *)
@@ -20,6 +21,66 @@ Theorem C04_generated_config_action_is_model : forall includepath i d o adds,
   gen_config_action includepath i d o adds = declare includepath i d o adds.
 Proof. exact gen_config_action_declare. Qed.
 Print Assumptions C04_generated_config_action_is_model.
+
+(* ---- the ENTRY DOORS are regenerated from the source as well: ActionState.action, expand_action_tuple,
+   normalize_actions (run by resolveConflicts on everything it is handed) and ConflictResolverState.__init__ *)
+Theorem C04_generated_state_action_is_model : forall acts i d o p adds,
+  gen_state_action acts i d o p adds = state_action acts i d o p adds.
+Proof. exact gen_state_action_model. Qed.
+Print Assumptions C04_generated_state_action_is_model.
+
+Theorem C04_generated_state_action_defaults :
+  gen_state_action_default_order = Some 0%Z /\ gen_state_action_default_includepath = [].
+Proof. exact gen_state_action_defaults. Qed.
+Print Assumptions C04_generated_state_action_defaults.
+
+Theorem C04_generated_expand_action_tuple_is_model : forall i adds t,
+  gen_expand_action_tuple i adds t = expand_tuple i adds t.
+Proof. exact gen_expand_model. Qed.
+Print Assumptions C04_generated_expand_action_tuple_is_model.
+
+Theorem C04_generated_normalize_actions_is_model : forall l, gen_normalize_actions l = normalize l.
+Proof. exact gen_normalize_model. Qed.
+Print Assumptions C04_generated_normalize_actions_is_model.
+
+Theorem C04_generated_resolver_state_is_model : gen_cstate0 = cstate0.
+Proof. exact gen_cstate0_model. Qed.
+Print Assumptions C04_generated_resolver_state_is_model.
+
+(* dicts pass through normalize_actions untouched -- what [restart] (remaining_actions.extend(normalize_actions(..)))
+   relies on -- so a commit of ready-made dicts is the commit of those very actions *)
+Theorem C04_normalize_keeps_dicts : forall cfg st l,
+  gen_normalize_actions (map RDict l) = Some l /\ restart_raw st (map RDict l) = Some (restart st l) /\
+  commit_raw cfg (map RDict l) = Some (commit_with cfg l).
+Proof.
+  exact (fun cfg st l => conj (eq_trans (gen_normalize_model _) (normalize_dicts l))
+                              (conj (restart_raw_dicts st l) (commit_raw_dicts cfg l))).
+Qed.
+Print Assumptions C04_normalize_keeps_dicts.
+
+(* THE DOORS AGREE: declared through Configurator.action, ActionState.action, as a ready-made dict, or as an old-style
+   tuple of 7 or 8 positions, an action reaches remaining_actions with the same discriminator, include chain and phase;
+   a 6-tuple says phase 0, a tuple of 1..4 positions says root chain and phase 0; no position at all or more than 8 is a
+   TypeError (None) *)
+Theorem C04_entry_doors_agree : forall p i d o adds,
+  let a := declare p i d o adds in
+  gen_config_action p i d o adds = a /\
+  gen_state_action [] i d o p adds = [a] /\
+  gen_normalize_actions [RDict a] = Some [a] /\
+  gen_normalize_actions [RTuple i adds (tuple7 d p o)] = Some [a] /\
+  gen_normalize_actions [RTuple i adds (tuple7 d p o ++ [TOther])] = Some [a] /\
+  gen_normalize_actions [RTuple i adds (firstn 6 (tuple7 d p o))] = Some [declare p i d (Some 0%Z) adds] /\
+  (forall k, (1 <= k <= 4)%nat ->
+     gen_normalize_actions [RTuple i adds (firstn k (tuple7 d p o))] = Some [declare [] i d (Some 0%Z) adds]) /\
+  gen_normalize_actions [RTuple i adds []] = None /\
+  gen_normalize_actions [RTuple i adds (tuple7 d p o ++ [TOther; TOther])] = None.
+Proof. exact entry_doors_agree. Qed.
+Print Assumptions C04_entry_doors_agree.
+
+Theorem C04_commit_tuple_door : forall cfg p i d o adds rest,
+  commit_raw cfg (RTuple i adds (tuple7 d p o) :: map RDict rest) = commit_raw cfg (map RDict (declare p i d o adds :: rest)).
+Proof. exact commit_raw_doors. Qed.
+Print Assumptions C04_commit_tuple_door.
 
 (* histories: several commits on ONE ActionState / Configurator.  The function regenerated from the source has no
    parameter besides the pending actions (resolver state and generator are created inside it), so the k-th commit of a
@@ -264,6 +325,32 @@ Theorem C04_restart_indices : forall st new,
   Forall (fun u : ainfo => (start st <= fst u)%N) items.
 Proof. exact restart_indices. Qed.
 Print Assumptions C04_restart_indices.
+
+(* AN ACTION ADDED TO A PHASE THAT HAS ALREADY BEEN PASSED IS REFUSED -- RUN LEVEL, re-entrant runs included: as soon
+   as an executed action [a] declares an action [b] of an earlier phase than its own, the commit ends with the refusal;
+   it names [a]'s phase as the phase reached and a pending phase that is not above [b]'s; [a] is the last action that
+   ran (nothing is executed after the late declaration) *)
+Theorem C04_late_addition_refused : forall acts,
+  wf_ids acts = true -> wf_orders acts = true ->
+  forall a b, In a (commit_trace cfg_current acts) -> In b (aadds a) -> (ordkey b < ordkey a)%Z ->
+    (exists o, fst (commit acts) = Late o (ordkey a) /\ (o <= ordkey b)%Z /\ (o < ordkey a)%Z)
+    /\ exists tr0, commit_trace cfg_current acts = tr0 ++ [a].
+Proof. exact (late_addition_refused cfg_current). Qed.
+Print Assumptions C04_late_addition_refused.
+
+Example C04_late_addition_refused_nonvacuous :
+  wf_ids w_late = true /\ wf_orders w_late = true /\
+  commit_with cfg_fixed w_late = (Late 0 5, [Run 0%N]) /\ map aid (commit_trace cfg_fixed w_late) = [0%N].
+Proof. exact late_addition_witness. Qed.
+
+(* ... and a refusal, at run level, always names the phase of the action executed LAST as the phase reached, and a
+   strictly earlier phase as the offending one (so the first refusal-free prefix of a run is phase-monotone and a
+   commit in which nothing ran yet is never refused) *)
+Theorem C04_late_refusal_names_last_phase : forall acts o m,
+  wf_orders acts = true -> fst (commit acts) = Late o m ->
+  (o < m)%Z /\ exists tr0 a, commit_trace cfg_current acts = tr0 ++ [a] /\ ordkey a = m.
+Proof. exact (fun acts o m => late_refusal_names_last_phase cfg_current acts o m). Qed.
+Print Assumptions C04_late_refusal_names_last_phase.
 
 (* the unrepaired code (both parameters off) contradicts the specification: DESIGN.md section 5 item 3 *)
 Theorem C04_commit_spec_refuted_crossphase :
